@@ -154,15 +154,17 @@ static int imports_obj_symbol_table_lookup_by_name(
   int ptr = 0;
   ElfSymbol32 *elf_symbol32;
 
-  while (ptr < symbol_table_size)
+  while (ptr + (int)sizeof(ElfSymbol32) <= symbol_table_size)
   {
     elf_symbol32 = (ElfSymbol32 *)(symbol_table + ptr);
 
-    int st_name = get_int32_le(elf_symbol32->st_name);
+    uint32_t st_name = get_int32_le(elf_symbol32->st_name);
     int st_size = get_int32_le(elf_symbol32->st_size);
-    const char *name = (const char *)(symbol_string_table + st_name);
 
-    if (st_name > symbol_string_table_size) { st_name = 0; }
+    // A name offset outside of the string table names the empty string.
+    if (st_name >= (uint32_t)symbol_string_table_size) { st_name = 0; }
+
+    const char *name = (const char *)(symbol_string_table + st_name);
 
 #ifdef DEBUG
     imports_obj_elf_print_symbol32(elf_symbol32, name);
@@ -191,16 +193,16 @@ static const char *imports_obj_symbol_table_lookup_by_local_offset(
   int ptr = 0;
   ElfSymbol32 *elf_symbol32;
 
-  while (ptr < symbol_table_size)
+  while (ptr + (int)sizeof(ElfSymbol32) <= symbol_table_size)
   {
     elf_symbol32 = (ElfSymbol32 *)(symbol_table + ptr);
 
-    int st_name = get_int32_le(elf_symbol32->st_name);
+    uint32_t st_name = get_int32_le(elf_symbol32->st_name);
     int st_value = get_int32_le(elf_symbol32->st_value);
     //int st_size = get_int32_le(elf_symbol32->st_size);
     int st_info = elf_symbol32->st_info;
 
-    if (st_name > symbol_string_table_size) { st_name = 0; }
+    if (st_name >= (uint32_t)symbol_string_table_size) { st_name = 0; }
 
 #ifdef DEBUG
     imports_obj_elf_print_symbol32(elf_symbol32, (const char *)(symbol_string_table + st_name));
@@ -345,6 +347,9 @@ int imports_obj_find_code_from_symbol(
       else
     if (sh_type == SHT_STRTAB && strcmp(name, ".strtab") == 0)
     {
+      // Names are read as C strings: the table has to end with a NUL.
+      if (sh_size == 0 || buffer[sh_offset + sh_size - 1] != 0) { return -1; }
+
       symbol_string_table = buffer + sh_offset;
       symbol_string_table_size = sh_size;
     }
@@ -443,6 +448,9 @@ const char *imports_obj_find_name_from_offset(
       else
     if (sh_type == SHT_STRTAB && strcmp(name, ".strtab") == 0)
     {
+      // Names are read as C strings: the table has to end with a NUL.
+      if (sh_size == 0 || buffer[sh_offset + sh_size - 1] != 0) { return NULL; }
+
       symbol_string_table = buffer + sh_offset;
       symbol_string_table_size = sh_size;
     }
